@@ -297,6 +297,68 @@ def all_statements(body):
     return out
 
 
+def val_of(e):
+    e = strip(e)
+    if e["k"] == "Ref" and e.get("d") == "Enum":
+        return (e.get("q") or e["n"]).replace("Opm::RestartIO::Helpers::VectorItems::", "VI::"), e.get("ev")
+    if e["k"] == "Int":
+        return str(e["v"]), e["v"]
+    if e.get("ev") is not None:
+        return show(e), e["ev"]
+    return show(e), None
+
+
+def switch_table(fn):
+    """label -> set of returned values for the outermost switch of a function (fall-through labels grouped; a nested switch
+    contributes all its returns).  None if the function has no switch."""
+    sw = next((n for n in walk_fn(fn) if n["k"] == "Switch"), None)
+    if sw is None:
+        return None
+    table = {}
+    default = set()
+    pending, is_default = [], False
+
+    def close(stmts):
+        vals = set()
+        for st in stmts:
+            for x in walk(st):
+                if x["k"] == "Return" and x.get("e") is not None:
+                    vals.add(val_of(x["e"]))
+                if x["k"] == "Throw":
+                    vals.add(("<throw>", None))
+        return vals
+
+    group = []
+    items = stmt_list(sw["body"])
+    def flush():
+        nonlocal pending, is_default, group
+        if pending or is_default:
+            vals = close(group)
+            if vals:
+                for lab in pending:
+                    table.setdefault(lab, set()).update(vals)
+                if is_default:
+                    default.update(vals)
+                pending, is_default = [], False
+        group = []
+    for it in items:
+        node = it
+        opened = False
+        while node is not None and node["k"] in ("Case", "Default"):
+            if not opened and group and close(group):
+                flush()
+            opened = True
+            if node["k"] == "Case":
+                pending.append(val_of(node["v"]))
+            else:
+                is_default = True
+            node = node.get("sub")
+        if node is not None:
+            group.append(node)
+    flush()
+    return table, default
+
+
 def provenance(expr, fn, by_q, depth=0, seen=None):
     """Tokens describing where an index expression comes from: names of accessor methods called, '-1' for a decrement by one,
     'loop:<var>' for a loop counter, 'param:<name>' for a parameter that could not be resolved through the callers in the file."""
@@ -397,10 +459,10 @@ def run(chk):
                     v = e.get("fv", e.get("v"))
                     if v is None:
                         raise core.AnalysisBroken("entry %d of %s has no compile-time value" % (i, tname))
-                    sig.setdefault(measures[i], []).append(round(float(v), 12) if abs(float(v)) < 1e6 else float("%.12g" % float(v)))
+                    sig.setdefault(measures[i], []).append(float(v))
 
     def equivalent(a, b):
-        return a == b or (a in sig and b in sig and all(abs(x - y) <= 1e-12 * max(abs(x), abs(y), 1e-300) for x, y in zip(sig[a], sig[b])))
+        return a == b or (a in sig and b in sig and all(abs(x - y) <= 1e-12 * max(abs(x), abs(y)) for x, y in zip(sig[a], sig[b])))
 
     # ---- writer table
     r_w = chk.rule("C05.writer", "assignments to restart-array slots found in the Aggregate*Data writers (slot, measures, summary keys, copies)", floor=350)
@@ -828,6 +890,114 @@ def run(chk):
                     chk.violation(r_rec, key, "%s fetches the %s record `%s`, which does not derive from segmentNumber() - 1 (%s): the writer stores a segment's record at its segment number, so segments whose storage order differs from their numbering get another segment's values" % (f["q"], n["m"].upper(), show(n["a"][1])[:40], ", ".join(sorted(pv)) or "nothing"), f["file"], n["l"])
     if n_r == 0:
         raise core.AnalysisBroken("no SegmentVectors::rseg/iseg call found in LoadRestart.cpp")
+
+    # ---- C05.arrays: array names and element types requested by the readers are the ones RestartIO::save emits
+    r_a = chk.rule("C05.arrays", "every restart array a reader asks for by name is written by RestartIO::save under that name and with that element type", floor=55)
+    import glob as _glob
+    rroot = chk.root if chk.root != core.REPO else core.REPO
+    rst_units = sorted(u for u in core.library_units() if u.startswith(RST)) + [OUT + "LoadRestart.cpp", OUT + "RestartIO.cpp"]
+    ax = chk.facts(rst_units, files_re="^/repo/opm/(io/eclipse/rst|output/eclipse)/")
+
+    def elem(t):
+        t = t.replace("const ", "")
+        m = re.search(r"vector<\s*([^<>]+(?:<[^<>]*>)?)\s*>", t)
+        e = (m.group(1) if m else t).strip(" &")
+        if "PaddedOutputString" in e or "basic_string" in e or e.endswith("string"):
+            return "string"
+        return e
+    written = {}
+    for f in ax.fns:
+        if not f["file"].endswith("RestartIO.cpp"):
+            continue
+        for n in walk_fn(f):
+            if n["k"] == "MCall" and n.get("m") == "write" and (n.get("cls") or "").endswith("OutputStream::Restart") and len(n.get("a", [])) == 2:
+                names = const_strings(n["a"][0], {}, {})
+                if names and n.get("pt"):
+                    for nm in names:
+                        written.setdefault(nm, set()).add(elem(n["pt"][1]))
+    if len(written) < 40:
+        raise core.AnalysisBroken("only %d array names found in RestartIO.cpp write calls" % len(written))
+    chk.extra["arrays_written"] = len(written)
+    optional_in = {d["array"]: d for d in core.load_table("c05_optional_arrays.json")["foreign"]}
+    for f in ax.fns:
+        if f["file"].endswith("RestartIO.cpp"):
+            continue
+        for n in walk_fn(f):
+            if n["k"] == "MCall" and n.get("m") in ("getKeyword", "hasKeyword") and (n.get("cls") or "").endswith("RestartFileView") and n.get("a") and n.get("targs"):
+                names = const_strings(n["a"][0], {}, {})
+                if not names:
+                    continue
+                T = elem(n["targs"][0])
+                for nm in sorted(names):
+                    key = "%s<%s>@%s:%d" % (nm, T, f["q"].split("::")[-1], n["l"])
+                    chk.instance(r_a, key, sample=dict(array=nm, requested=T, written=sorted(written.get(nm, ())), reader=f["q"]))
+                    if nm not in written:
+                        if nm in optional_in:
+                            continue
+                        chk.violation(r_a, "%s:missing" % nm, "%s asks the restart file for array %s, which RestartIO::save never writes under that name" % (f["q"], nm), f["file"], n["l"])
+                    elif T not in written[nm]:
+                        chk.violation(r_a, "%s:type" % nm, "%s asks for %s as %s, but RestartIO::save writes it as %s: the typed look-up does not find it" % (f["q"], nm, T, "/".join(sorted(written[nm]))), f["file"], n["l"])
+
+    # ---- C05.enum: integer encoders and decoders of control modes / states are inverse tables
+    r_e = chk.rule("C05.enum", "decoding the integer an encoder wrote gives back an enumerator that encodes to the same integer (control modes, guide-rate targets, status, direction)", floor=30)
+    PAIRS = [
+        ("Opm::Well::eclipseControlMode", "ProducerCMode", "producer_cmode_from_int"),
+        ("Opm::Well::eclipseControlMode", "InjectorCMode", "injector_cmode_from_int"),
+        ("Opm::Group::ProductionCMode2Int", None, "Opm::Group::ProductionCModeFromInt"),
+        ("Opm::Group::InjectionCMode2Int", None, "Opm::Group::InjectionCModeFromInt"),
+        ("Opm::Group::GuideRateInjTargetToInt", None, "Opm::Group::GuideRateInjTargetFromInt"),
+    ]
+
+    def find_fn(name, ptype=None):
+        c = [f for f in lib.fns if f.get("body") and (f["q"] == name or f["q"].endswith("::" + name)) and (ptype is None or any(ptype in p_["t"] for p_ in f.get("params", [])[:1]))]
+        if ptype is not None:
+            c = [f for f in c if len(f.get("params", [])) <= 2 and "Well &" not in f["params"][0]["t"]]
+        return c[0] if c else None
+    for enc_q, ptype, dec_q in PAIRS:
+        ef, df = find_fn(enc_q, ptype), find_fn(dec_q)
+        if ef is None or df is None:
+            raise core.AnalysisBroken("encoder/decoder pair %s / %s not found" % (enc_q, dec_q))
+        et, dt = switch_table(ef), switch_table(df)
+        if et is None or dt is None:
+            raise core.AnalysisBroken("%s or %s is no longer a switch" % (enc_q, dec_q))
+        enc, enc_def = et
+        dec, dec_def = dt
+        inv = {}
+        for lab, vals in enc.items():
+            for v in vals:
+                if v[1] is not None:
+                    inv.setdefault(v[1], set()).add(lab[0].split("::")[-1])
+        dec_by_int = {lab[1]: {v[0].split("::")[-1] for v in vals} for lab, vals in dec.items() if lab[1] is not None}
+        for code, labs in sorted(inv.items()):
+            key = "%s:%s" % (dec_q.split("::")[-1], code)
+            got = dec_by_int.get(code)
+            chk.instance(r_e, key, sample=dict(encoder=ef["q"], decoder=df["q"], code=code, encoded_from=sorted(labs), decodes_to=sorted(got) if got else None))
+            if got is None:
+                unknown_only = all(v[0].endswith("WMCtlUnk") for lab, vals in enc.items() for v in vals if v[1] == code)
+                if not unknown_only:
+                    chk.info(r_e, "%s writes code %s for %s, which %s does not decode (falls to %s)" % (ef["q"], code, "/".join(sorted(labs)), df["q"], "/".join(sorted(v[0] for v in dec_def)) or "no default"))
+                continue
+            if "<throw>" in got:
+                continue
+            if not got <= labs or labs - got:
+                chk.violation(r_e, key + "->" + "/".join(sorted(got)) + "(from:" + "/".join(sorted(labs)) + ")", "%s writes %s for %s, but %s turns %s into %s: the control mode / target changes across a restart" % (ef["q"], code, "/".join(sorted(labs)), df["q"], code, "/".join(sorted(got))), df["file"], df["l"])
+    # connection direction and state are written as plain integers
+    dir_enum = chk.facts(["/repo/opm/input/eclipse/Schedule/Well/Connection.cpp"], files_re="Schedule/Well/Connection.hpp", no_body=True).enums.get("Opm::Connection::Direction")
+    conn_dec = [f for f in fx.fns if f["file"].endswith("rst/connection.cpp") and f["n"] == "from_int" and f.get("body")]
+    for f in conn_dec:
+        t = switch_table(f)
+        if t is None or "Direction" not in f.get("ret", ""):
+            continue
+        if not dir_enum:
+            raise core.AnalysisBroken("enum Opm::Connection::Direction not found")
+        vals = {it["n"]: it["v"] for it in dir_enum["items"]}
+        for lab, res in t[0].items():
+            names = {v[0].split("::")[-1] for v in res}
+            key = "ConnDir:%s" % lab[1]
+            chk.instance(r_e, key, sample=dict(code=lab[1], decodes_to=sorted(names), enum_values={n_: vals.get(n_) for n_ in names}))
+            for n_ in names:
+                if vals.get(n_) != lab[1]:
+                    chk.violation(r_e, key, "ICON[ConnDir] is written as static_cast<int>(direction) (Direction::%s = %s) but from_int<Direction> decodes %s as %s" % (n_, vals.get(n_), lab[1], n_), f["file"], f["l"])
 
     for k_ in deferred:
         if k_ not in used_def:
